@@ -148,28 +148,7 @@ Lemma advance_sim : forall cfgs h s n,
 Proof. intros cfgs h s n (HC & HI & HN & HE & HB). unfold hubR; simpl. repeat split; auto; congruence. Qed.
 
 (* ------------------------------------------------------------- read stream *)
-Lemma read_stream_sim : forall cfgs h s ch since limit rv h' r s' r',
-  hubR cfgs h s ->
-  read_stream h ch since limit rv = (h', r) ->
-  spec_read_stream cfgs s ch since limit rv = (s', r') ->
-  r = r' /\ hubR cfgs h' s'.
-Proof.
-  intros cfgs h s ch since limit rv h' r s' r' HR H1 H2.
-  pose proof HR as (HC & HI & HN & HE & HB).
-  unfold read_stream, spec_read_stream, s_get, s_ensure, s_get in *.
-  destruct (get_chan h ch) as [c|] eqn:G; unfold get_chan in G.
-  - destruct (arel_get_some _ _ _ _ _ HC G) as (sc & G' & HCR). rewrite G' in H2.
-    pose proof (chanR_pos _ _ _ _ HCR) as EP. destruct HCR as (ES & _).
-    rewrite EP in H1. rewrite ES in H1. simpl in H1.
-    destruct since as [[so se]|].
-    + destruct (negb (se =? 0) && negb (se =? sc_epoch sc)); [inversion H1; inversion H2; subst; auto|].
-      destruct (negb rv && (N.of_nat (length (sc_log sc)) =? so)); inversion H1; inversion H2; subst; auto.
-    + destruct (limit =? 0)%Z; inversion H1; inversion H2; subst; auto.
-  - rewrite (arel_get_none _ _ _ _ HC G) in H2. unfold create_chan in H1.
-    inversion H1; inversion H2; subst; clear H1 H2. unfold s_pos; simpl. rewrite HE. split; auto.
-    unfold hubR; hub_simpl. repeat split; auto; try congruence.
-    apply arel_set; auto. rewrite <- HE. apply chanR_new. discriminate.
-Qed.
+
 
 (* -------------------------------------------------------------- read state *)
 Lemma refresh_cache_sorted : forall c asc,
@@ -201,38 +180,4 @@ Proof. reflexivity. Qed.
 Lemma sorted_keys_nil : forall o a, sorted_keys o a [] = [].
 Proof. reflexivity. Qed.
 
-Lemma read_state_sim : forall cfgs h s ch rev cur lim k asc h' r s' r',
-  hubR cfgs h s ->
-  read_state cfgs h ch rev cur lim k asc = (h', r) ->
-  spec_read_state cfgs s ch rev cur lim k asc = (s', r') ->
-  r = r' /\ hubR cfgs h' s'.
-Proof.
-  intros cfgs h s ch rev cur lim k asc h' r s' r' HR H1 H2.
-  pose proof HR as (HC & HI & HN & HE & HB).
-  unfold read_state, spec_read_state, s_get, s_ensure, s_get in *.
-  destruct (cfg_of cfgs ch) as [cf|e] eqn:CF; [|inversion H1; inversion H2; subst; auto].
-  destruct (get_chan h ch) as [c|] eqn:G; unfold get_chan in G.
-  - destruct (arel_get_some _ _ _ _ _ HC G) as (sc & G' & HCR). rewrite G' in H2.
-    pose proof (chanR_pos _ _ _ _ HCR) as EP.
-    pose proof HCR as (ES & EM & EL & (EO1 & EO2) & EK).
-    unfold get_state_chan in H1. rewrite EP, EM in H1.
-    destruct (state_pre (sc_map sc) (s_pos sc) rev lim k) eqn:PRE.
-    + inversion H1; inversion H2; subst. split; auto.
-      eapply hubR_set_chan; eauto.
-    + inversion H1; inversion H2; subst; clear H1 H2. split.
-      * rewrite refresh_cache_sorted by assumption. rewrite EM.
-        destruct (sc_map sc) as [|x m] eqn:EMM.
-        -- rewrite !sorted_keys_nil, !state_page_nil. reflexivity.
-        -- assert (c_ordered c = cf_ordered cf) as ->; auto.
-           rewrite EO2 by (rewrite EM; discriminate). unfold ordered_of. rewrite CF. reflexivity.
-      * eapply hubR_set_chan; eauto. apply refresh_cache_chanR. assumption.
-  - rewrite (arel_get_none _ _ _ _ HC G) in H2. unfold create_chan in H1.
-    assert (hubR cfgs (set_nep (set_chan h ch (new_chan (h_nep h) false)) (h_nep h + 1))
-                 (mkSS (aset N.eqb (ss_chans s) ch (mkSC (ss_nep s) [] [])) (ss_idem s) (ss_now s) (ss_nep s + 1) (ss_bcast s))).
-    { unfold hubR; hub_simpl. repeat split; auto; try congruence.
-      apply arel_set; auto. rewrite <- HE. apply chanR_new. discriminate. }
-    unfold s_pos in H2; simpl in H2.
-    destruct rev as [[ro re]|].
-    + destruct (negb (re =? 0)); inversion H1; inversion H2; subst; rewrite HE in H |- *; auto.
-    + inversion H1; inversion H2; subst; rewrite HE in H |- *; auto.
-Qed.
+
